@@ -17,6 +17,13 @@ def jobs(tier, ctx):
                                 inputs='flags of each function, both origins, whether the earlier call happens, #args',
                                 assumptions=['function tables satisfy the documented invariants (sorted by name pointer, runtime indices consistent); table construction by the compiler is outside',
                                              'frame set-up, argument set-up and bytecode execution are recording stubs', 'cache starts empty; names at fixed addresses (concrete per run)']))
-    # ('::' calls: a CALL_INHERITED mode of the step engine exists (harness/vm/vm_step.c) but its symex does not finish in 300 s;
-    #  not part of any tier)
+    # '::' calls: one real step of F_CALL_INHERITED with the frame construction cut to a recording stub
+    for (tag, offs) in (('o0000', '0,0,0,0'), ('o1211', '1,2,1,1'), ('o2132', '2,1,3,2'), ('o3303', '3,3,0,3')):
+        j = vm.step_job(ctx, 'call_inherited', 'F_CALL_INHERITED', [], extra_defs=['CALL_INHERITED=1', 'CI_OFFS=' + offs], tag=tag,
+                        desc="one step of the real eval_instruction: F_CALL_INHERITED ('::' call) into an inherited program, from a caller running at function/variable offsets and with inherit-entry offsets (%s): the inherited program runs with the caller's offsets PLUS the inherit entry's, the caller's frame is saved, the frame is built once for the named function" % offs)
+        if j:
+            j['unwindset'] = j['unwindset'] + ['harness.4:6']
+            j['cuts'] = j['cuts'] + ['setup_inherited_frame']
+            j['assumptions'] = j['assumptions'] + ['setup_inherited_frame is a recording stub (frame construction is decided by the C04 frame_setup jobs)']
+            out.append(j)
     return out
